@@ -208,7 +208,7 @@ pub fn gen_synth(u: &mut Unstructured) -> Result<Synth> {
                 for y in y0..y0 + years {
                     for (inst, utoff) in r.events(y) {
                         if inst > transitions.last().map(|x| x.0).unwrap_or(i64::MIN) {
-                            let idx = if utoff == r.std_utoff && !(r.dst.as_ref().map(|d| d.utoff) == Some(utoff) && dst_idx != 0 && utoff != r.std_utoff) { std_idx } else { dst_idx };
+                            let idx = if utoff == r.std_utoff { std_idx } else { dst_idx };
                             transitions.push((inst, idx));
                         }
                     }
